@@ -273,8 +273,21 @@ func (x *Exec) callSiteAssertsArgs(fr *Frame, st *State, key string, in ssa.Inst
 
 func (x *Exec) applyContract(fr *Frame, st *State, con *FuncContract, fn *ssa.Function, key string, args []Val, in ssa.Instruction, rt types.Type) Val {
 	pos := in.Pos()
-	x.callSiteAsserts(fr, st, key, in)
 	vars := x.bindParams(fn, args)
+	{
+		// callsite clauses of the caller: the callee's parameters are visible by name unless the
+		// caller has a variable of that name
+		extra := map[string]cvar{}
+		if fr != nil {
+			cv := x.frameVars(fr)
+			for n, v := range vars {
+				if _, clash := cv[n]; !clash {
+					extra[n] = v
+				}
+			}
+		}
+		x.callSiteAssertsArgs(fr, st, key, in, extra)
+	}
 	// implicit: receiver non-nil
 	if fn.Signature.Recv() != nil && len(args) > 0 {
 		if p, ok := args[0].(*PtrVal); ok && p.Nilc != tFalse {
